@@ -386,11 +386,17 @@ class Sim(object):
   # -- simulated locks ---------------------------------------------------------
   def lock_acquire(self, lock, me, blocking=True, timeout=-1):
     if me.atomic or self.in_handler:
-      # harness-atomic section: must not block
+      # harness-atomic section (e.g. a weakref / GC callback fired by a simulated
+      # drop or collection): must not block
       if lock.owner is None or (lock.owner is me and lock.reentrant):
         lock.owner = me
         lock.count += 1
         return True
+      if lock.owner is me:
+        # a non-reentrant lock its own thread already holds, wanted again from a
+        # callback running on that very thread: a real thread blocks for ever here
+        self._ev(me.tid, 'D', lock.index)
+        self._halt(me, 'deadlock', wait_for=[[me.tid, repr(lock) + ' (re-entered from a callback on the owning thread)', me.tid]])
       raise RuntimeError('atomic harness section needs %r held by T%d'
                          % (lock, lock.owner.tid))
     self.point('a', lock.index, 0, hot=True)
